@@ -30,7 +30,7 @@ M = [
  ("C05-skip-parent-inc", "C05", "scriptplan/core/resource_scenario.py", "            if parent_limits and hasattr(parent_limits, \"inc\"):\n                parent_limits.inc(sb_idx)", "            if False and parent_limits and hasattr(parent_limits, \"inc\"):\n                parent_limits.inc(sb_idx)", ["C05"]),
  ("C05-seven-day-chunks", "C05", "scriptplan/core/limits.py", "            return (slot_monday - start_monday).days // 7", "            return (slot_datetime.date() - self.interval_start.date()).days // 7", ["C05", "C14"]),
  ("C05-no-task-limit-inc", "C05", "scriptplan/core/resource_scenario.py", "            task_scenario.incLimits(sb_idx, self.property)", "            pass", ["C05"]),
- ("C06-round-end-to-slot", "C06", "scriptplan/core/task_scenario.py", "            end_offset = round(grant_start + seconds_into_slot)", "            end_offset = slot_duration_seconds", ["C06"]),
+ ("C06-round-end-to-slot", "C06", "scriptplan/core/task_scenario.py", "            end_offset = round(grant_start + seconds_into_slot)", "            end_offset = slot_duration_seconds", ["C06", "C01"]),
  ("C06-forget-start-offset", "C06", "scriptplan/core/task_scenario.py", "                        start_date = start_date + timedelta(seconds=round(grant_start_seconds))", "                        start_date = start_date", ["C06", "C01"]),
  ("C06-milestone-end-plus-slot", "C06", "scriptplan/core/task_scenario.py", "                    self.property[(\"start\", self.scenarioIdx)] = date\n                    self.property[(\"end\", self.scenarioIdx)] = date\n            else:\n                if end_date:", "                    self.property[(\"start\", self.scenarioIdx)] = date\n                    self.property[(\"end\", self.scenarioIdx)] = self.project.idxToDate(slot_idx + 1)\n            else:\n                if end_date:", ["C06"]),
  ("C07-flip-tiebreak", "C07", "scriptplan/core/project.py", "            return (-prio, -crit, seq)", "            return (-prio, -crit, -seq)", ["C07", "C09"]),
@@ -47,7 +47,7 @@ M = [
  ("C12-no-idempotence-guard", "C12", "scriptplan/core/project.py", "        if getattr(self, \"_schedulingDone\", False):\n            return True\n", "", ["C12"]),
  ("C14-month-based-weeks", "C14", "scriptplan/core/limits.py", "            return (slot_monday - start_monday).days // 7", "            return (slot_monday.isocalendar()[1] - start_monday.isocalendar()[1]) % 53", ["C14", "C05"]),
  ("C15-substring-reference", "C15", "scriptplan/parser/tjp_parser.py", "            candidates = [t for t in project.tasks if t.id == parts[0]]", "            candidates = [t for t in project.tasks if t.id.startswith(parts[0])]", ["C15"]),
- ("C15-macro-arg-order", "C15", "scriptplan/parser/macro_processor.py", "            for i, arg in enumerate(args, 1):\n                expansion = expansion.replace(f\"${i}\", arg)", "            for i, arg in enumerate(args, 1):\n                expansion = expansion.replace(f\"${i}\", arg, 1)", ["C15"]),
+ ("C15-macro-arg-order", "C15", "scriptplan/parser/macro_processor.py", "            return re.sub(r\"\\$(\\d+)\", substitute, expansion)", "            return re.sub(r\"\\$(\\d)\", substitute, expansion)", ["C15"]),
  ("C15-precedes-drops-gap", "C15", "scriptplan/parser/tjp_parser.py", "                        if prec_item.get(opt):\n                            options[opt] = prec_item.get(opt)", "                        if prec_item.get(opt) and opt != \"gapduration\":\n                            options[opt] = prec_item.get(opt)", ["C15"]),
  ("C16-shared-limits-object", "C16", "scriptplan/core/limits.py", "    def copy(self) -> \"Limits\":\n        \"\"\"Return a deep copy of this Limits collection.\"\"\"\n        return Limits(self)", "    def copy(self) -> \"Limits\":\n        \"\"\"Return a deep copy of this Limits collection.\"\"\"\n        return self\n\n    def __deepcopy__(self, memo):\n        return self", ["C16"]),
  ("C16-no-limit-reset", "C16", "scriptplan/core/task_scenario.py", "        if limits:\n            limits.reset()\n\n    def getAllDependencies", "        if limits and self.scenarioIdx == 0:\n            limits.reset()\n\n    def getAllDependencies", ["C16"]),
